@@ -222,6 +222,7 @@ func runC06(c *an.Ctx) {
 			}
 		}
 		c.Check(okInit, "C06.b", "pointers-initialised-before-flush", "the step (re)initialises the head and tail pointers from the batch it is about to write before it flushes it (flush dereferences both)", closure, fc, "", nil)
+		checkAdvanceAfterReinit(c, "C06.d", closure, ensure, p.Method("store", "Store", "advanceHead"), fc)
 	}
 	// no exit from the retry loop under a failed flush
 	prFail := cf.Prune(an.NE(fErr, "nil"))
